@@ -86,13 +86,14 @@ CHECKS = {
              "denote value mod 2^w; folded unary/binary arithmetic and comparisons satisfy the same type+value postcondition as "
              "the unfolded C11 operator (integer-domain oracle, C-side UB excluded); constant-condition ?: selects the live arm; "
              "dead-operand removal keeps every operand of a registered effect registered; rm_op_by_name removes exactly the "
-             "named op; sizeof value. Literal division is a BOUNDED stand-in (70 native compilations must raise) and is not "
-             "counted as proved. Refuted instances replay natively: known findings F11 F11b F12 F13 F27 F28.",
+             "named op; sizeof value. Literal division: what is folded is the C quotient of the operands converted to their common "
+             "type (truncation towards zero), a zero divisor is rejected, refusing to fold is allowed (defect F34 repaired). "
+             "Refuted instances replay natively: known findings F11 F11b F12 F13 F27 F28.",
         design_ref="DESIGN.md section 3, C09",
-        note=TRUST + "WF(Number) (value representable in its type) is the folding precondition; add_op via contract; the float "
-             "formatting path of literal division is outside the VC generator (bounded native check instead).",
+        note=TRUST + "WF(Number) (value representable in its type) is the folding precondition; add_op via contract; 70 literal "
+             "divisions are additionally compiled natively end to end (extra witnesses, not a stand-in).",
         technique="contract-based deductive verification: AST->z3 verification conditions in linear/non-linear integer arithmetic "
-                  "over symbolic literal values on the real folding functions; bounded native stand-in for literal division"),
+                  "over symbolic literal values on the real folding functions (unary, + - * /, comparisons, ?:, sizeof, literal typing and rendering)"),
     "C18": dict(
         category="proof",
         text="parse_single and Parser.parse are verified for any number of behaviour parts / instructions by fold invariants "
@@ -160,10 +161,9 @@ CHECKS = {
              "il_init_var() exactly once for holder tables of ANY size (fold invariants); callbacks consume every operand they "
              "receive. The global one-raw-use conclusion follows by the linearity lemma (metatheory). Known finding F14."
              " Argument lists of sub-routine calls: value arguments are read exactly once; a borrowed pure parameter passed on goes through il_read (counter advances, first read raw, later reads DUP) - contracts shared with C08."
-             " Seven statement-block shapes for emit_stmt_blocks (incl. operand ids 9/10, 99/100 and two statements that print identically); parameters of external type are bare names; arguments of plugin calls go through il_read; the dead arm of a folded ?: leaves nothing declared.",
+             " emit_stmt_blocks for any table and any number of operands per statement (three nested fold invariants; seven ground shapes in addition, incl. operand ids 9/10, 99/100 and two statements that print identically); the same operand node in both positions of a node is read twice with one raw use; printing a node (statement comments) reads no operand; no operand holder other than the reset one stays reachable after reset(); parameters of external type are bare names; arguments of plugin calls go through il_read; the dead arm of a folded ?: leaves nothing declared.",
         design_ref="DESIGN.md section 3, C12",
-        note=TRUST + "Linearity lemma and induction over the tree are metatheory (T-IND); emit_stmt_blocks statement lists are enumerated "
-             "shapes (bounded).",
+        note=TRUST + "Linearity lemma and induction over the tree are metatheory (T-IND).",
         technique="contract-based deductive verification: atom-linearity of symbolic templates, symbolic read counters (z3 LIA), fold "
                   "invariants over abstract holder tables, structural postconditions of callbacks"),
     "C15": dict(
@@ -281,14 +281,15 @@ CHECKS = {
         text="Layout equivalence as a lemma over contracts of the real code: fbody composes READ++EXEC++WRITE++final resp. "
              "READ++statements++final (fold shapes; the per-block folds over tables of any size are C12's invariants); read texts "
              "denote the same value for every read history (variable or DUP of it, symbolic counters); get_exec_op_list returns "
-             "exactly the reachable executable pures; every node a callback creates is registered; a quantified coverage lemma "
+             "exactly the reachable executable pures (structural induction: one unfolding per operand kind with the recursive calls "
+             "through the function's own contract, flatten_list through its own proved contract; six ground tree shapes in addition); every node a callback creates is registered; a quantified coverage lemma "
              "(z3, uninterpreted node sort) concludes that both layouts initialise every node the final sequence reaches; only "
              "fbody/emit_final_seq_return read code_format (package scan), so IR and attributes are layout independent."
              " Emission frame: every text emitter under contract changes nothing but read / declaration counters, so the text of a node cannot depend on the emission order in which the layouts differ; registration obligations cover all ten compound assignment operators.",
         design_ref="DESIGN.md section 3, C16",
         note=TRUST + "den(DUP t) = den t and irrelevance of initialiser order under declare-before-use (T-RZIL, C11); the conclusion "
              "'equal den of instruction_sequence' is a metatheoretic composition (T-IND) of the discharged clauses.",
-        technique="contract-based deductive verification: fold-shape postconditions, symbolic read counters, structural contract of "
+        technique="contract-based deductive verification: fold-shape postconditions, symbolic read counters, inductive contract of "
                   "get_exec_op_list, registration postconditions of callbacks, quantified set lemma discharged by z3"),
 }
 
